@@ -449,7 +449,10 @@ func init() {
 			t := c11StrTypes[c.Choose(len(c11StrTypes))]
 			base := 10
 			if t.RT.Kind() != reflect.Float32 && t.RT.Kind() != reflect.Float64 && t != decl.TDuration && t != decl.TUpper && t != decl.TBool && t != decl.TMapSB {
-				base = []int{10, 2, 16, 36}[c.Choose(4)]
+				base = []int{10, 2, 16, 36, 0}[c.Choose(5)] // 0: the base is inferred from the numeral's prefix, as in Go source
+				if base == 0 {
+					c.Hit("base-inferred-from-prefix")
+				}
 			}
 			path := c11PathInline
 			if c.Thorough {
@@ -524,11 +527,11 @@ func init() {
 		Body:       body,
 		Rule: "(i) every value of int8/uint8/int16/uint16 plus two out-of-range neighbours on each side, rendered in every base 2..36 in both letter cases; " +
 			"(ii) min-1,min,min+1,-1,0,1,max-1,max,max+1,2^64,2^128,-2^63,-2^63-1 for int/int16/int32/int64/uint/uint16/uint32/uint64 in bases 10,2,8,16,36, with and without a leading zero, through 6 paths (--val=V, --val V, default tag, environment, positional, INI entry); " +
-			"(iii) every string of length <= 4 over {0 1 9 a f z - + . e x _ space I n :} for 13 types x bases 10,2,16,36 (thorough: also via default tag and positional); (iv) 56 float rounding/limit/spelling witnesses x sign x float32/float64 x 6 paths; " +
+			"(iii) every string of length <= 4 over {0 1 9 a f z - + . e x _ space I n :} for 13 types x bases 10,2,16,36 and 0 (inferred from the prefix: 0x, 0b, 0o, a leading 0, underscores) (thorough: also via default tag and positional); (iv) 56 float rounding/limit/spelling witnesses x sign x float32/float64 x 6 paths; " +
 			"(v) choice sets (incl. a member containing a comma, a set of seven and a set of one; also: the help text rendered first; also: a value outside the choices rejected by the same parser first; also: another set declared by the tag and this set assigned to Option.Choices by the program before the first use; also: a different set first, one use, then the set edited through Option.Choices) x near-miss values (prefix, suffix, case, padding, leading zero/plus) x 4 paths; (vi) lists in an environment variable split on env-delim {',', ';;'} for []int, []string, map[string]int, []uint8: 8 piece patterns with empty, blank-padded and unconvertible pieces (every piece is a value of the element type: an empty piece is an element of a []string and a fault for a number); (viii) a func(string) option with choices x 7 values x 2 spellings (the callback runs only for members); (vii) INI values that look as if they ended in a comment (80 #1, a ; b ...) for uint16, int, string; (ii), (iv) and (v) also with IgnoreUnknown set on the parser; oracle: own digit parser + math/big (integers), big.Rat nearest-even (floats), three classes must-accept / must-reject / grey; " +
 			"distinct = distinct (type, base, class, accepted?, stored value)",
 		Assumptions:  []string{"duration syntax is Go's time.ParseDuration (trusted)", "bool spellings other than true/false, a leading '+', inf/nan/hex-float/underscore spellings are grey: acceptance not asserted, exactness is"},
-		RequiredHits: []string{"must-accept", "must-reject", "grey", "not-a-choice", "choices-prior=1", "choices-prior=2", "choices-prior=3"},
+		RequiredHits: []string{"must-accept", "must-reject", "grey", "not-a-choice", "choices-prior=1", "choices-prior=2", "choices-prior=3", "base-inferred-from-prefix"},
 		Bound:        [2]string{"strings <= 4 via --val=V; full value range of 8- and 16-bit types in all bases", "strings <= 4 through 3 paths; full value range of 8- and 16-bit types in all bases"},
 		BudgetS:      [2]int{170, 1500},
 	})
